@@ -365,6 +365,695 @@ example : anyTargetMatch alice
 
 end Examples
 
+/-! ## Strengthened statements (theorem audit) -/
+
+/-! The audit (C03 #7–#9, G1) found the targeting theorems to restate `anyTargetMatch` and the only
+entry-point statement to need `contextTargets = []` and `prerequisites = []`.  This part gives an
+independent characterisation of the targeting stage (A), the legacy/context-target interplay (B, E),
+the individual context a list looks at for single- and multi-kind contexts (C), the targeting stage
+at `evaluate` with prerequisites, both directions (D), and the key tables, including stale and
+twice-preprocessed ones, up to the whole observation of `evaluate` (F). -/
+
+/-! ### A. The lists consulted, as one flat list -/
+
+/-- The list actually consulted for a context-target entry `t`: the entry itself, except that a
+user-kind entry without keys stands for the FIRST user target list (`Targets`) with the same
+variation — or for nothing, if there is none. -/
+def effective (f : Flag) (t : Target) : Option Target :=
+  if (t.contextKind == "" || t.contextKind == "user") && t.values.isEmpty then
+    f.targets.find? (fun t1 => t1.variation == t.variation)
+  else some t
+
+/-- All target lists `anyTargetMatchVariation` consults for a flag, flattened, in the order it
+consults them: the user target lists alone when there are no context targets; otherwise one list per
+context-target entry (`effective`).  Every other user target list is never looked at. -/
+def consulted (f : Flag) : List Target :=
+  if f.contextTargets.isEmpty then f.targets else f.contextTargets.filterMap (effective f)
+
+/-- What a context-target entry contributes is the match against its effective list. -/
+theorem entryMatch_eq (ctx : Ctx) (f : Flag) (t : Target) :
+    entryMatch ctx f t = (effective f t).bind (targetMatch ctx) := by
+  unfold entryMatch effective
+  split
+  · cases f.targets.find? (fun t1 => t1.variation == t.variation) <;> rfl
+  · rfl
+
+/-- `findSome?` over a `filterMap`. -/
+theorem findSome?_filterMap' {α β γ : Type} (e : α → Option β) (g : β → Option γ) (l : List α) :
+    (l.filterMap e).findSome? g = l.findSome? (fun a => (e a).bind g) := by
+  induction l with
+  | nil => rfl
+  | cons a l ih =>
+    rw [List.filterMap_cons, List.findSome?_cons]
+    cases h : e a with
+    | none => simpa using ih
+    | some b =>
+      simp only [List.findSome?_cons, Option.bind_some]
+      cases g b <;> simp [ih]
+
+/-- Independent restatement of `anyTargetMatchVariation` (audit finding 7): it is the first-match
+search of ONE flat list of target lists, `consulted f` — the legacy/context-target interplay is
+entirely in which lists are on that list. -/
+theorem anyTargetMatch_consulted (ctx : Ctx) (f : Flag) :
+    anyTargetMatch ctx f = (consulted f).findSome? (targetMatch ctx) := by
+  unfold consulted
+  split
+  · next h => simp [anyTargetMatch, h]
+  · next h =>
+    rw [findSome?_filterMap']
+    have hne : f.contextTargets ≠ [] := by simpa [List.isEmpty_iff] using h
+    rw [context_targets' hne]
+    exact findSome?_congr' _ _ _ (fun t _ => entryMatch_eq ctx f t)
+
+/-- Target list `t` holds the context: the context has an individual context of the list's kind
+(`""` = `user`) and that individual's key is found in the list's key set (table if present, else the
+slice). -/
+def Holds (ctx : Ctx) (t : Target) : Prop :=
+  ∃ sc, ctx.byKind t.contextKind = some sc ∧ t.findKey sc.key = true
+
+/-- `targetMatchVariation` answers exactly when the list holds the context, and then with the list's
+own variation — no hypothesis on tables. -/
+theorem targetMatch_eq_some_iff (ctx : Ctx) (t : Target) (v : Int) :
+    targetMatch ctx t = some v ↔ v = t.variation ∧ Holds ctx t := by
+  unfold targetMatch Holds
+  cases hb : ctx.byKind t.contextKind with
+  | none => simp
+  | some sc =>
+    simp only []
+    by_cases hk : t.findKey sc.key = true
+    · rw [if_pos hk]
+      constructor
+      · intro h; injection h with h; exact ⟨h.symm, sc, rfl, hk⟩
+      · rintro ⟨rfl, -⟩; rfl
+    · rw [if_neg hk]
+      constructor
+      · intro h; cases h
+      · rintro ⟨-, sc', hsc', hk'⟩
+        injection hsc' with e
+        subst e
+        exact absurd hk' hk
+
+/-- `targetMatchVariation` declines exactly when the list does not hold the context. -/
+theorem targetMatch_eq_none_iff (ctx : Ctx) (t : Target) :
+    targetMatch ctx t = none ↔ ¬ Holds ctx t := by
+  constructor
+  · intro h ⟨sc, h1, h2⟩
+    have := (targetMatch_eq_some_iff ctx t t.variation).2 ⟨rfl, sc, h1, h2⟩
+    rw [h] at this; cases this
+  · intro h
+    cases hm : targetMatch ctx t with
+    | none => rfl
+    | some v => exact absurd ((targetMatch_eq_some_iff ctx t v).1 hm).2 h
+
+/-- The key table of a target list is absent or is the one `PreprocessFlag` computes from the list's
+keys (in particular: preprocessed once, twice, or never). -/
+def TableOK (t : Target) : Prop := t.pre = none ∨ t.pre = preprocessStringSet t.values
+
+/-- With a sound table, "holds" is exact string membership of the individual context's key in the
+listed keys. -/
+theorem holds_iff_listed (ctx : Ctx) (t : Target) (h : TableOK t) :
+    Holds ctx t ↔ ∃ sc, ctx.byKind t.contextKind = some sc ∧ sc.key ∈ t.values := by
+  unfold Holds
+  constructor
+  · rintro ⟨sc, h1, h2⟩; exact ⟨sc, h1, (Target.findKey_iff t _ h).1 h2⟩
+  · rintro ⟨sc, h1, h2⟩; exact ⟨sc, h1, (Target.findKey_iff t _ h).2 h2⟩
+
+/-- The targeting stage answers `v` iff `v` is the variation of the FIRST consulted list that holds
+the context — for every context (single-kind of any kind, multi-kind, invalid) and every flag. -/
+theorem anyTargetMatch_eq_some_iff (ctx : Ctx) (f : Flag) (v : Int) :
+    anyTargetMatch ctx f = some v ↔
+      ∃ pre t post, consulted f = pre ++ t :: post ∧ (∀ q ∈ pre, ¬ Holds ctx q) ∧ Holds ctx t ∧
+        v = t.variation := by
+  rw [anyTargetMatch_consulted, List.findSome?_eq_some_iff]
+  constructor
+  · rintro ⟨pre, t, post, h1, h2, h3⟩
+    obtain ⟨hv, hh⟩ := (targetMatch_eq_some_iff ctx t v).1 h2
+    exact ⟨pre, t, post, h1, fun q hq => (targetMatch_eq_none_iff ctx q).1 (h3 q hq), hh, hv⟩
+  · rintro ⟨pre, t, post, h1, h2, h3, h4⟩
+    exact ⟨pre, t, post, h1, (targetMatch_eq_some_iff ctx t v).2 ⟨h4, h3⟩,
+      fun q hq => (targetMatch_eq_none_iff ctx q).2 (h2 q hq)⟩
+
+/-- The targeting stage declines iff no consulted list holds the context. -/
+theorem anyTargetMatch_eq_none_iff (ctx : Ctx) (f : Flag) :
+    anyTargetMatch ctx f = none ↔ ∀ t ∈ consulted f, ¬ Holds ctx t := by
+  rw [anyTargetMatch_consulted, List.findSome?_eq_none_iff]
+  exact forall₂_congr fun t _ => targetMatch_eq_none_iff ctx t
+
+/-- Value selection does not read the user target lists. -/
+theorem getValueForVR_targets (env : Env) (f : Flag) (ts : List Target) (vr : VariationOrRollout)
+    (r : Reason) (st : St) :
+    getValueForVR env { f with targets := ts } vr r st = getValueForVR env f vr r st := rfl
+
+/-- `getOffValue` does not read the user target lists. -/
+theorem getOffValue_targets (env : Env) (f : Flag) (ts : List Target) (r : Reason) (st : St) :
+    getOffValue env { f with targets := ts } r st = getOffValue env f r st := rfl
+
+/-- `getVariation` does not read the user target lists. -/
+theorem getVariation_targets (env : Env) (f : Flag) (ts : List Target) (i : Int) (r : Reason) (st : St) :
+    getVariation env { f with targets := ts } i r st = getVariation env f i r st := rfl
+
+/-- The rule loop does not read the user target lists. -/
+theorem rulesLoop_targets (seg : SegRec) (env : Env) (f : Flag) (ts : List Target) :
+    ∀ rules i st, rulesLoop seg env { f with targets := ts } rules i st =
+      rulesLoop seg env f rules i st := by
+  intro rules
+  induction rules with
+  | nil => intro i st; rfl
+  | cons r rules ih =>
+    intro i st
+    simp only [rulesLoop, getValueForVR_targets, ih]
+
+/-- The prerequisite loop does not read the user target lists. -/
+theorem prereqLoop_targets (rec : FlagRec) (env : Env) (f : Flag) (ts : List Target)
+    (chain : List String) :
+    ∀ ps st, prereqLoop rec env { f with targets := ts } chain ps st =
+      prereqLoop rec env f chain ps st := by
+  intro ps
+  induction ps with
+  | nil => intro st; rfl
+  | cons p ps ih =>
+    intro st
+    simp only [prereqLoop, ih]
+
+/-- One flag evaluation reads the user target lists only through the targeting stage's answer. -/
+theorem evalBody_targets (rec : FlagRec) (seg : SegRec) (env : Env) (f : Flag) (ts : List Target)
+    (chain : List String) (st : St)
+    (h : anyTargetMatch env.ctx { f with targets := ts } = anyTargetMatch env.ctx f) :
+    evalBody rec seg env { f with targets := ts } chain st = evalBody rec seg env f chain st := by
+  simp only [evalBody, checkPrereqs, h, prereqLoop_targets, rulesLoop_targets, getOffValue_targets,
+    getVariation_targets]
+
+/-- `Evaluate` reads the user target lists only through the targeting stage: if replacing them
+leaves `anyTargetMatchVariation` unchanged, the WHOLE observation (result, `IsExperiment`, status,
+events, log, lookups, queries) is unchanged. -/
+theorem evaluate_targets_congr (env : Env) (f : Flag) (ts : List Target)
+    (h : anyTargetMatch env.ctx { f with targets := ts } = anyTargetMatch env.ctx f) :
+    evaluate env { f with targets := ts } = evaluate env f := by
+  unfold evaluate
+  split
+  · rfl
+  · have : evalFlag (segFuel env.store) (flagFuel env.store) env { f with targets := ts } [] {} =
+        evalFlag (segFuel env.store) (flagFuel env.store) env f [] {} :=
+      evalBody_targets _ _ env f ts [] {} h
+    rw [this]
+    rfl
+
+
+/-! ### B. Which lists are consulted -/
+
+/-- No context targets: the user target lists are consulted, all of them, in order. -/
+theorem consulted_legacy {f : Flag} (h : f.contextTargets = []) : consulted f = f.targets := by
+  simp [consulted, h]
+
+/-- With context targets: one effective list per entry, in entry order. -/
+theorem consulted_context {f : Flag} (h : f.contextTargets ≠ []) :
+    consulted f = f.contextTargets.filterMap (effective f) := by
+  unfold consulted
+  rw [if_neg]
+  simpa [List.isEmpty_iff] using h
+
+/-- An entry that is not a keyless user-kind entry is consulted itself. -/
+theorem effective_ordinary {f : Flag} {t : Target} (h : ¬ KeylessUser t) : effective f t = some t := by
+  unfold effective
+  rw [if_neg]
+  rwa [keylessUser_iff]
+
+/-- A keyless user-kind entry stands for the first user target list with its variation. -/
+theorem effective_keyless {f : Flag} {t : Target} (h : KeylessUser t) :
+    effective f t = f.targets.find? (fun t1 => t1.variation == t.variation) := by
+  unfold effective
+  rw [if_pos ((keylessUser_iff t).2 h)]
+
+/-- Without a keyless user-kind entry the consulted lists are the context-target lists themselves. -/
+theorem consulted_no_keyless {f : Flag} (h : f.contextTargets ≠ [])
+    (hno : ∀ t ∈ f.contextTargets, ¬ KeylessUser t) : consulted f = f.contextTargets := by
+  rw [consulted_context h]
+  have : ∀ l : List Target, (∀ t ∈ l, ¬ KeylessUser t) → l.filterMap (effective f) = l := by
+    intro l
+    induction l with
+    | nil => intro _; rfl
+    | cons q l ih =>
+      intro hl
+      rw [List.filterMap_cons, effective_ordinary (hl q (List.mem_cons_self ..)),
+        ih (fun t ht => hl t (List.mem_cons_of_mem _ ht))]
+  exact this _ hno
+
+/-! ### C. Which individual context a list looks at -/
+
+/-- An invalid context has no individual context of any kind. -/
+theorem byKind_invalid (k : String) : Ctx.invalid.byKind k = none := rfl
+
+/-- A single-kind context is looked at by exactly the lists of its own kind (`""` meaning `user`). -/
+theorem byKind_single (c : SCtx) (k : String) :
+    (Ctx.single c).byKind k = if c.kind = normKind k then some c else none := by
+  simp only [Ctx.byKind, Ctx.individuals, List.find?_cons, List.find?_nil]
+  by_cases h : c.kind = normKind k
+  · have : (c.kind == normKind k) = true := by simpa using h
+    rw [this, if_pos h]
+  · have : (c.kind == normKind k) = false := by simpa using h
+    rw [this, if_neg h]
+
+/-- The individual context a list looks at is one of the context's individuals and has the list's
+kind. -/
+theorem byKind_some {ctx : Ctx} {k : String} {sc : SCtx} (h : ctx.byKind k = some sc) :
+    sc ∈ ctx.individuals ∧ sc.kind = normKind k := by
+  unfold Ctx.byKind at h
+  exact ⟨List.mem_of_find?_eq_some h, by simpa using List.find?_some h⟩
+
+/-- In a multi-kind context (kinds pairwise distinct, as `ldcontext` guarantees) a list of kind K
+looks at THE individual context of kind K. -/
+theorem byKind_multi (cs : List SCtx) (hnd : (cs.map (·.kind)).Nodup) (sc : SCtx) (hsc : sc ∈ cs)
+    (k : String) (hk : sc.kind = normKind k) : (Ctx.multi cs).byKind k = some sc := by
+  unfold Ctx.byKind Ctx.individuals
+  induction cs with
+  | nil => cases hsc
+  | cons c cs ih =>
+    rw [List.map_cons, List.nodup_cons] at hnd
+    rw [List.find?_cons]
+    rcases List.mem_cons.1 hsc with rfl | hmem
+    · have : (sc.kind == normKind k) = true := by simpa using hk
+      rw [this]
+    · have hne : c.kind ≠ normKind k := by
+        intro he
+        apply hnd.1
+        rw [he, ← hk]
+        exact List.mem_map.2 ⟨sc, hmem, rfl⟩
+      have : (c.kind == normKind k) = false := by simpa using hne
+      rw [this]
+      exact ih hnd.2 hmem
+
+/-- A context lacking kind K is held by no K list. -/
+theorem missing_kind_not_holds {ctx : Ctx} {t : Target} (h : ctx.byKind t.contextKind = none) :
+    ¬ Holds ctx t := by
+  rintro ⟨sc, h1, -⟩; rw [h] at h1; cases h1
+
+/-! ### D. The targeting stage at the entry point `evaluate` -/
+
+/-- The targeting stage at the entry point, with prerequisites: flag on, every prerequisite met,
+`anyTargetMatchVariation` answers a valid index `v` ⇒ `Evaluate` returns variation `v`, reason
+TARGET_MATCH with all other reason fields at their defaults, and `IsExperiment = false`. -/
+theorem evaluate_of_anyTargetMatch (env : Env) (f : Flag) (v : Int) (hc : env.ctx ≠ .invalid)
+    (hon : f.on = true) (hp : ∀ q ∈ f.prerequisites, C02.PrereqMet env f q)
+    (ht : anyTargetMatch env.ctx f = some v) (h0 : 0 ≤ v) (h1 : v < f.variations.length) :
+    C02.DetailIs (evaluate env f).result.detail
+      { value := f.variations.getD v.toNat .null, index := some v, reason := .targetMatch } ∧
+    (evaluate env f).result.isExperiment = false := by
+  have hd := C02.evaluate_target env f v hc hon hp ht
+  rw [C02.getVariation_ok .targetMatch h0 h1] at hd
+  refine ⟨hd, C02.evaluate_isExperiment_early env f ?_⟩
+  rw [hd.kind]
+  exact ⟨nofun, nofun⟩
+
+/-- A matching target list whose variation index is out of range makes `Evaluate` return
+MALFORMED_FLAG. -/
+theorem evaluate_target_bad_index (env : Env) (f : Flag) (v : Int) (hc : env.ctx ≠ .invalid)
+    (hon : f.on = true) (hp : ∀ q ∈ f.prerequisites, C02.PrereqMet env f q)
+    (ht : anyTargetMatch env.ctx f = some v) (hbad : v < 0 ∨ (f.variations.length : Int) ≤ v) :
+    C02.DetailIs (evaluate env f).result.detail (Detail.forError .malformedFlag) := by
+  have hd := C02.evaluate_target env f v hc hon hp ht
+  rwa [C02.getVariation_bad .targetMatch hbad] at hd
+
+/-- End to end for every kind of context: flag on, prerequisites met, `t` is the first consulted
+list that holds the context ⇒ `Evaluate` returns `t`'s variation with TARGET_MATCH (rules and
+fallthrough irrelevant), `IsExperiment = false`. -/
+theorem evaluate_first_holding_list (env : Env) (f : Flag) (hc : env.ctx ≠ .invalid)
+    (hon : f.on = true) (hp : ∀ q ∈ f.prerequisites, C02.PrereqMet env f q)
+    (pre : List Target) (t : Target) (post : List Target) (hcons : consulted f = pre ++ t :: post)
+    (hpre : ∀ q ∈ pre, ¬ Holds env.ctx q) (ht : Holds env.ctx t)
+    (h0 : 0 ≤ t.variation) (h1 : t.variation < f.variations.length) :
+    C02.DetailIs (evaluate env f).result.detail
+      { value := f.variations.getD t.variation.toNat .null, index := some t.variation,
+        reason := .targetMatch } ∧
+    (evaluate env f).result.isExperiment = false :=
+  evaluate_of_anyTargetMatch env f t.variation hc hon hp
+    ((anyTargetMatch_eq_some_iff env.ctx f t.variation).2 ⟨pre, t, post, hcons, hpre, ht, rfl⟩) h0 h1
+
+/-- Exactly when `Evaluate` answers TARGET_MATCH (valid context): the flag is on, every prerequisite
+is met, and the first consulted list that holds the context has a valid variation index.  A Go
+change that consults lists in another order, skips the prerequisite stage, or lets a rule win over a
+target falsifies this. -/
+theorem evaluate_target_match_iff (env : Env) (f : Flag) (hc : env.ctx ≠ .invalid) :
+    (evaluate env f).result.detail.reason.kind = .targetMatch ↔
+      f.on = true ∧ (∀ q ∈ f.prerequisites, C02.PrereqMet env f q) ∧
+      ∃ pre t post, consulted f = pre ++ t :: post ∧ (∀ q ∈ pre, ¬ Holds env.ctx q) ∧
+        Holds env.ctx t ∧ 0 ≤ t.variation ∧ t.variation < f.variations.length := by
+  constructor
+  · intro hk
+    obtain ⟨hon, hp, v, hv, hi⟩ := (C02.evaluate_reason_inv env f).2.2.1 hk
+    obtain ⟨pre, t, post, h1, h2, h3, rfl⟩ := (anyTargetMatch_eq_some_iff env.ctx f v).1 hv
+    refine ⟨hon, hp, pre, t, post, h1, h2, h3, ?_⟩
+    have hd := C02.evaluate_target env f t.variation hc hon hp hv
+    rcases C02.getVariation_cases f t.variation .targetMatch with ⟨_, hb⟩ | ⟨h0, h1', _⟩
+    · rw [hd.kind, hb] at hk; cases hk
+    · exact ⟨h0, h1'⟩
+  · rintro ⟨hon, hp, pre, t, post, h1, h2, h3, h0, h1'⟩
+    exact (evaluate_first_holding_list env f hc hon hp pre t post h1 h2 h3 h0 h1').1.kind
+
+/-- If no consulted list holds the context — e.g. the context lacks the lists' kinds, or its keys
+are not listed — `Evaluate` never answers TARGET_MATCH. -/
+theorem evaluate_no_list_holds (env : Env) (f : Flag)
+    (h : ∀ t ∈ consulted f, ¬ Holds env.ctx t) :
+    (evaluate env f).result.detail.reason.kind ≠ .targetMatch := by
+  intro hk
+  obtain ⟨_, _, v, hv, _⟩ := (C02.evaluate_reason_inv env f).2.2.1 hk
+  rw [(anyTargetMatch_eq_none_iff env.ctx f).2 h] at hv
+  cases hv
+
+/-- A TARGET_MATCH result of `Evaluate` serves the variation of a consulted list that holds the
+context. -/
+theorem evaluate_target_match_holds (env : Env) (f : Flag)
+    (hk : (evaluate env f).result.detail.reason.kind = .targetMatch) :
+    ∃ t ∈ consulted f, Holds env.ctx t ∧ (evaluate env f).result.detail.index = some t.variation := by
+  obtain ⟨_, _, v, hv, hi⟩ := (C02.evaluate_reason_inv env f).2.2.1 hk
+  obtain ⟨pre, t, post, h1, -, h3, rfl⟩ := (anyTargetMatch_eq_some_iff env.ctx f v).1 hv
+  exact ⟨t, by rw [h1]; simp, h3, hi⟩
+
+/-! ### E. The legacy `targets` / `contextTargets` interplay at the entry point -/
+
+/-- `evaluate_listed_key` with prerequisites and all fields: no context targets, prerequisites met,
+`t` the first user list holding the key ⇒ TARGET_MATCH with `t.variation`. -/
+theorem evaluate_listed_key_prereqs (env : Env) (f : Flag) (hc : env.ctx ≠ .invalid)
+    (hon : f.on = true) (hp : ∀ q ∈ f.prerequisites, C02.PrereqMet env f q)
+    (hct : f.contextTargets = [])
+    (pre : List Target) (t : Target) (post : List Target) (hts : f.targets = pre ++ t :: post)
+    (hpre : ∀ q ∈ pre, targetMatch env.ctx q = none) (hform : TableOK t)
+    (sc : SCtx) (hsc : env.ctx.byKind t.contextKind = some sc) (hkey : sc.key ∈ t.values)
+    (h0 : 0 ≤ t.variation) (h1 : t.variation < f.variations.length) :
+    C02.DetailIs (evaluate env f).result.detail
+      { value := f.variations.getD t.variation.toNat .null, index := some t.variation,
+        reason := .targetMatch } ∧
+    (evaluate env f).result.isExperiment = false := by
+  have hm : targetMatch env.ctx t = some t.variation :=
+    (targetMatch_iff env.ctx t t.variation hform).2 ⟨rfl, sc, hsc, hkey⟩
+  exact evaluate_of_anyTargetMatch env f t.variation hc hon hp
+    (legacy_first_match hct pre t post hts hpre (by rw [hm]; rfl)) h0 h1
+
+/-- The context-target half of the property at the entry point (audit finding 8): with context
+targets, an entry `t` of kind K that is not a keyless user entry, reached after entries contributing
+nothing, whose keys list the context's K key ⇒ `Evaluate` returns `t.variation` with TARGET_MATCH.
+K is arbitrary and the context may be single- or multi-kind. -/
+theorem evaluate_context_target (env : Env) (f : Flag) (hc : env.ctx ≠ .invalid)
+    (hon : f.on = true) (hp : ∀ q ∈ f.prerequisites, C02.PrereqMet env f q)
+    (pre : List Target) (t : Target) (post : List Target)
+    (hts : f.contextTargets = pre ++ t :: post)
+    (hpre : ∀ q ∈ pre, entryMatch env.ctx f q = none) (hk : ¬ KeylessUser t) (hform : TableOK t)
+    (sc : SCtx) (hsc : env.ctx.byKind t.contextKind = some sc) (hkey : sc.key ∈ t.values)
+    (h0 : 0 ≤ t.variation) (h1 : t.variation < f.variations.length) :
+    C02.DetailIs (evaluate env f).result.detail
+      { value := f.variations.getD t.variation.toNat .null, index := some t.variation,
+        reason := .targetMatch } ∧
+    (evaluate env f).result.isExperiment = false := by
+  have hm : entryMatch env.ctx f t = some t.variation := by
+    rw [entryMatch_ordinary hk]
+    exact (targetMatch_iff env.ctx t t.variation hform).2 ⟨rfl, sc, hsc, hkey⟩
+  exact evaluate_of_anyTargetMatch env f t.variation hc hon hp
+    (context_first_match pre t post t.variation hts hpre hm) h0 h1
+
+/-- The keyless user entry at the entry point: a user-kind context-target entry without keys defers
+to the FIRST user target list `t1` with the same variation; if `t1` lists the context's key,
+`Evaluate` returns that variation with TARGET_MATCH. -/
+theorem evaluate_keyless_user_defers (env : Env) (f : Flag) (hc : env.ctx ≠ .invalid)
+    (hon : f.on = true) (hp : ∀ q ∈ f.prerequisites, C02.PrereqMet env f q)
+    (pre : List Target) (t : Target) (post : List Target)
+    (hts : f.contextTargets = pre ++ t :: post)
+    (hpre : ∀ q ∈ pre, entryMatch env.ctx f q = none) (hk : KeylessUser t)
+    (tpre : List Target) (t1 : Target) (tpost : List Target)
+    (hts1 : f.targets = tpre ++ t1 :: tpost)
+    (htpre : ∀ q ∈ tpre, q.variation ≠ t.variation) (hv : t1.variation = t.variation)
+    (hform : TableOK t1)
+    (sc : SCtx) (hsc : env.ctx.byKind t1.contextKind = some sc) (hkey : sc.key ∈ t1.values)
+    (h0 : 0 ≤ t.variation) (h1 : t.variation < f.variations.length) :
+    C02.DetailIs (evaluate env f).result.detail
+      { value := f.variations.getD t.variation.toNat .null, index := some t.variation,
+        reason := .targetMatch } ∧
+    (evaluate env f).result.isExperiment = false := by
+  have hm : entryMatch env.ctx f t = some t.variation := by
+    rw [keyless_user_defers hk tpre t1 tpost hts1 htpre hv, ← hv]
+    exact (targetMatch_iff env.ctx t1 t1.variation hform).2 ⟨rfl, sc, hsc, hkey⟩
+  exact evaluate_of_anyTargetMatch env f t.variation hc hon hp
+    (context_first_match pre t post t.variation hts hpre hm) h0 h1
+
+/-- "User target lists are otherwise not consulted", at the entry point: with context targets and no
+keyless user entry, replacing the user target lists by anything leaves the whole observation of
+`Evaluate` unchanged. -/
+theorem evaluate_user_lists_not_consulted (env : Env) (f : Flag) (ts : List Target)
+    (h : f.contextTargets ≠ []) (hno : ∀ t ∈ f.contextTargets, ¬ KeylessUser t) :
+    evaluate env { f with targets := ts } = evaluate env f :=
+  evaluate_targets_congr env f ts (user_lists_otherwise_not_consulted ts h hno)
+
+
+/-! ### F. Key tables -/
+
+/-- The targeting stage reads `Targets` and `ContextTargets` only. -/
+theorem anyTargetMatch_congr (ctx : Ctx) {f g : Flag} (h1 : f.targets = g.targets)
+    (h2 : f.contextTargets = g.contextTargets) : anyTargetMatch ctx f = anyTargetMatch ctx g := by
+  simp only [anyTargetMatch, h1, h2]
+
+/-- Rewriting each user target list in a way that keeps its variation and its own match keeps the
+targeting stage's answer (also through the keyless-user deferral). -/
+theorem anyTargetMatch_map_targets (ctx : Ctx) (f : Flag) (g : Target → Target)
+    (hv : ∀ t, (g t).variation = t.variation)
+    (hm : ∀ t ∈ f.targets, targetMatch ctx (g t) = targetMatch ctx t) :
+    anyTargetMatch ctx { f with targets := f.targets.map g } = anyTargetMatch ctx f := by
+  have hdefer : ∀ (v : Int) (l : List Target), (∀ t ∈ l, targetMatch ctx (g t) = targetMatch ctx t) →
+      (match (l.map g).find? (fun t1 => t1.variation == v) with
+        | some t1 => targetMatch ctx t1
+        | none => none) =
+      (match l.find? (fun t1 => t1.variation == v) with
+        | some t1 => targetMatch ctx t1
+        | none => none) := by
+    intro v l hl
+    induction l with
+    | nil => rfl
+    | cons q l ih =>
+      rw [List.map_cons, List.find?_cons, List.find?_cons, hv q]
+      cases q.variation == v with
+      | true => exact hl q (List.mem_cons_self ..)
+      | false => exact ih (fun t ht => hl t (List.mem_cons_of_mem _ ht))
+  unfold anyTargetMatch
+  show (if f.contextTargets.isEmpty then (f.targets.map g).findSome? (targetMatch ctx)
+    else f.contextTargets.findSome? _) = _
+  split
+  · rw [List.findSome?_map]
+    exact findSome?_congr' _ _ _ (fun t ht => hm t ht)
+  · apply findSome?_congr'
+    intro t _
+    split
+    · exact hdefer _ f.targets hm
+    · rfl
+
+/-- Replacing a sound table by no table or by the precomputed one does not change a list's match. -/
+theorem targetMatch_table (ctx : Ctx) (t : Target) (h : TableOK t) (tbl : Option (List String))
+    (htbl : tbl = none ∨ tbl = preprocessStringSet t.values) :
+    targetMatch ctx { t with pre := tbl } = targetMatch ctx t := by
+  unfold targetMatch Target.findKey
+  have e : ∀ k, findKey k t.values tbl = findKey k t.values t.pre := by
+    intro k
+    rcases h with h | h <;> rcases htbl with h' | h' <;> rw [h, h'] <;>
+      simp only [findKey_table_transparent]
+  simp only [e]
+
+/-- The flag with every user-target key table dropped (as if never preprocessed). -/
+def stripTables (f : Flag) : Flag :=
+  { f with targets := f.targets.map fun t => { t with pre := none } }
+
+/-- Sound tables are invisible: dropping them does not change the targeting stage. -/
+theorem anyTargetMatch_strip (ctx : Ctx) (f : Flag) (h : ∀ t ∈ f.targets, TableOK t) :
+    anyTargetMatch ctx (stripTables f) = anyTargetMatch ctx f :=
+  anyTargetMatch_map_targets ctx f _ (fun _ => rfl)
+    (fun t ht => targetMatch_table ctx t (h t ht) none (Or.inl rfl))
+
+/-- After `PreprocessFlag` every user target list has a sound table, whatever it had before (stale,
+none, or already preprocessed). -/
+theorem preprocessFlag_tableOK (rx : RegexOracle) (f : Flag) :
+    ∀ t ∈ (preprocessFlag rx f).targets, TableOK t := by
+  intro t ht
+  obtain ⟨t0, _, rfl⟩ := List.mem_map.1 ht
+  exact Or.inr rfl
+
+/-- For ANY flag — stale tables included — the targeting stage after `PreprocessFlag` is the table-
+free one: membership is decided by the listed keys. -/
+theorem anyTargetMatch_preprocess_any (rx : RegexOracle) (ctx : Ctx) (f : Flag) :
+    anyTargetMatch ctx (preprocessFlag rx f) = anyTargetMatch ctx (stripTables f) := by
+  rw [← anyTargetMatch_strip ctx (preprocessFlag rx f) (preprocessFlag_tableOK rx f)]
+  apply anyTargetMatch_congr
+  · show ((f.targets.map _).map _) = f.targets.map _
+    rw [List.map_map]; rfl
+  · rfl
+
+/-- `anyTargetMatch_preprocess` for flags whose tables are absent OR already precomputed (audit
+finding 9: preprocessing twice). -/
+theorem anyTargetMatch_preprocess_tableOK (rx : RegexOracle) (ctx : Ctx) (f : Flag)
+    (h : ∀ t ∈ f.targets, TableOK t) :
+    anyTargetMatch ctx (preprocessFlag rx f) = anyTargetMatch ctx f := by
+  rw [anyTargetMatch_preprocess_any, anyTargetMatch_strip ctx f h]
+
+/-- `PreprocessFlag` is idempotent for the targeting stage. -/
+theorem anyTargetMatch_preprocess_twice (rx : RegexOracle) (ctx : Ctx) (f : Flag) :
+    anyTargetMatch ctx (preprocessFlag rx (preprocessFlag rx f)) =
+      anyTargetMatch ctx (preprocessFlag rx f) :=
+  anyTargetMatch_preprocess_tableOK rx ctx _ (preprocessFlag_tableOK rx f)
+
+/-- "The same whether or not lookup tables were precomputed", at the entry point and for everything
+observable: filling in the user-target key tables changes nothing `Evaluate` returns or does. -/
+theorem evaluate_fill_tables (env : Env) (f : Flag) (h : ∀ t ∈ f.targets, TableOK t) :
+    evaluate env { f with targets := f.targets.map fun t => { t with pre := preprocessStringSet t.values } } =
+      evaluate env f :=
+  evaluate_targets_congr env f _
+    (anyTargetMatch_map_targets env.ctx f _ (fun _ => rfl)
+      (fun t ht => targetMatch_table env.ctx t (h t ht) _ (Or.inr rfl)))
+
+/-- … and neither does dropping sound tables. -/
+theorem evaluate_strip_tables (env : Env) (f : Flag) (h : ∀ t ∈ f.targets, TableOK t) :
+    evaluate env (stripTables f) = evaluate env f :=
+  evaluate_targets_congr env f _ (anyTargetMatch_strip env.ctx f h)
+
+
+/-! ### G. Non-vacuity of the strengthened statements -/
+
+section AuditExamples
+
+/-- The store of `C02.exEnv2` (flags `p` off, `q` on serving 0, `f`) with another context. -/
+def exEnvAt (c : Ctx) : Env := { C02.exEnv2 with ctx := c }
+
+def bob : Ctx := .single { kind := "user", key := "bob" }
+
+/-- On, prerequisite `q` (met), two user lists naming `alice`, and context targets: an `org` list and
+a keyless `user` entry of variation 1. -/
+def exT : Flag :=
+  { key := "f", on := true, prerequisites := [⟨"q", 0⟩],
+    variations := [.str "a", .str "b", .str "c"], fallthrough := { variation := some 0 },
+    targets := [{ values := ["alice"], variation := 0 }, { values := ["alice"], variation := 1 }],
+    contextTargets := [{ contextKind := "org", values := ["acme"], variation := 2 },
+                       { contextKind := "user", values := [], variation := 1 }] }
+
+theorem exT_met_alice : ∀ q ∈ exT.prerequisites, C02.PrereqMet (exEnvAt alice) exT q := by
+  intro q hq
+  rw [show q = ⟨"q", 0⟩ from List.mem_singleton.1 hq]
+  exact C02.met_of_run C02.exQ C02.ex2_find_q (by decide) rfl (by decide)
+
+theorem exT_met_aliceAtOrg : ∀ q ∈ exT.prerequisites, C02.PrereqMet (exEnvAt aliceAtOrg) exT q := by
+  intro q hq
+  rw [show q = ⟨"q", 0⟩ from List.mem_singleton.1 hq]
+  exact C02.met_of_run C02.exQ C02.ex2_find_q (by decide) rfl (by decide)
+
+/-- Multi-kind context: the `org` list is consulted first and holds the `org` key: variation 2,
+TARGET_MATCH, although the user lists name `alice` too and the prerequisite had to be evaluated. -/
+example : C02.DetailIs (evaluate (exEnvAt aliceAtOrg) exT).result.detail
+      { value := .str "c", index := some 2, reason := .targetMatch } ∧
+    (evaluate (exEnvAt aliceAtOrg) exT).result.isExperiment = false :=
+  evaluate_context_target (exEnvAt aliceAtOrg) exT (by simp [exEnvAt, aliceAtOrg]) rfl
+    exT_met_aliceAtOrg []
+    { contextKind := "org", values := ["acme"], variation := 2 }
+    [{ contextKind := "user", values := [], variation := 1 }] rfl (by simp)
+    (by simp [KeylessUser]) (Or.inl rfl) { kind := "org", key := "acme" }
+    (by simp [exEnvAt, aliceAtOrg, Ctx.byKind, Ctx.individuals, normKind]) (by simp) (by decide)
+    (by decide)
+
+/-- Single-kind user context: the `org` list cannot hold it; the keyless `user` entry (variation 1)
+defers to the user list with variation 1, not to the first user list (variation 0). -/
+example : C02.DetailIs (evaluate (exEnvAt alice) exT).result.detail
+      { value := .str "b", index := some 1, reason := .targetMatch } ∧
+    (evaluate (exEnvAt alice) exT).result.isExperiment = false :=
+  evaluate_keyless_user_defers (exEnvAt alice) exT (by simp [exEnvAt, alice]) rfl exT_met_alice
+    [{ contextKind := "org", values := ["acme"], variation := 2 }]
+    { contextKind := "user", values := [], variation := 1 } [] rfl
+    (by intro q hq; rw [List.mem_singleton.1 hq, entryMatch_ordinary (by simp [KeylessUser])]
+        exact missing_kind (by simp [exEnvAt, alice, Ctx.byKind, Ctx.individuals, normKind]))
+    ⟨Or.inr rfl, rfl⟩
+    [{ values := ["alice"], variation := 0 }] { values := ["alice"], variation := 1 } [] rfl
+    (by intro q hq; rw [List.mem_singleton.1 hq]; decide) rfl (Or.inl rfl)
+    { kind := "user", key := "alice" }
+    (by simp [exEnvAt, alice, Ctx.byKind, Ctx.individuals, normKind, defaultKind]) (by simp)
+    (by decide) (by decide)
+
+/-- Without context targets the first user list naming the key wins (prerequisite met). -/
+example : C02.DetailIs (evaluate (exEnvAt alice) { exT with contextTargets := [] }).result.detail
+      { value := .str "a", index := some 0, reason := .targetMatch } ∧
+    (evaluate (exEnvAt alice) { exT with contextTargets := [] }).result.isExperiment = false :=
+  evaluate_listed_key_prereqs (exEnvAt alice) { exT with contextTargets := [] }
+    (by simp [exEnvAt, alice]) rfl exT_met_alice rfl []
+    { values := ["alice"], variation := 0 } [{ values := ["alice"], variation := 1 }] rfl (by simp)
+    (Or.inl rfl) { kind := "user", key := "alice" }
+    (by simp [exEnvAt, alice, Ctx.byKind, Ctx.individuals, normKind, defaultKind]) (by simp)
+    (by decide) (by decide)
+
+/-- The consulted lists of `exT`: the `org` list, then the user list with variation 1. -/
+example : consulted exT = [{ contextKind := "org", values := ["acme"], variation := 2 },
+    { values := ["alice"], variation := 1 }] := by decide
+
+/-- `bob` is held by no consulted list of `exT`: never TARGET_MATCH. -/
+example : (evaluate (exEnvAt bob) exT).result.detail.reason.kind ≠ .targetMatch :=
+  evaluate_no_list_holds (exEnvAt bob) exT (by
+    intro t ht
+    have : t = { contextKind := "org", values := ["acme"], variation := 2 } ∨
+        t = { values := ["alice"], variation := 1 } := by
+      have hc : consulted exT = [{ contextKind := "org", values := ["acme"], variation := 2 },
+        { values := ["alice"], variation := 1 }] := by decide
+      rw [hc] at ht
+      simpa using ht
+    rcases this with rfl | rfl
+    · exact missing_kind_not_holds (by simp [exEnvAt, bob, Ctx.byKind, Ctx.individuals, normKind])
+    · rintro ⟨sc, h1, h2⟩
+      simp [exEnvAt, bob, Ctx.byKind, Ctx.individuals, normKind, defaultKind] at h1
+      subst h1
+      simp [Target.findKey, findKey] at h2)
+
+/-- Both directions of `evaluate_target_match_iff` occur. -/
+example : (evaluate (exEnvAt alice) exT).result.detail.reason.kind = .targetMatch ∧
+    (evaluate (exEnvAt bob) exT).result.detail.reason.kind = .fallthrough := by decide
+
+/-- The kinds of `aliceAtOrg` are distinct, so `byKind_multi` applies to it. -/
+example : (Ctx.multi [{ kind := "user", key := "alice" }, { kind := "org", key := "acme" }]).byKind "org" =
+    some { kind := "org", key := "acme" } :=
+  byKind_multi _ (by decide) _ (by simp) "org" (by simp [normKind])
+
+/-- Context targets without keyless user entry: replacing the user lists (here by one naming
+`alice`) changes nothing `Evaluate` returns or does. -/
+example : evaluate (exEnvAt alice)
+      { { exT with contextTargets := [{ contextKind := "org", values := ["acme"], variation := 2 }] } with
+        targets := [{ values := ["alice"], variation := 0 }] } =
+    evaluate (exEnvAt alice)
+      { exT with contextTargets := [{ contextKind := "org", values := ["acme"], variation := 2 }] } :=
+  evaluate_user_lists_not_consulted _ _ _ (by simp)
+    (by intro t ht; rw [List.mem_singleton.1 ht]; simp [KeylessUser])
+
+/-- The user lists of `exT` carry no table: filling the tables in is invisible. -/
+example : evaluate (exEnvAt alice)
+      { exT with targets := exT.targets.map fun t => { t with pre := preprocessStringSet t.values } } =
+    evaluate (exEnvAt alice) exT :=
+  evaluate_fill_tables _ _ (by intro t ht; simp [exT] at ht; rcases ht with rfl | rfl <;> exact Or.inl rfl)
+
+/-- `TableOK` cannot be dropped: a stale table (keys of another list) changes the answer, exactly as
+in Go, where `findValueInMapOrStrings` trusts a non-nil map. -/
+example : targetMatch alice { values := ["alice"], variation := 1, pre := some ["bob"] } = none ∧
+    targetMatch alice { values := ["alice"], variation := 1 } = some 1 := by decide
+
+/-- `evaluate_first_holding_list` on the flat list: for `alice` the first consulted list (`org`)
+does not hold her, the second (user list with variation 1) does. -/
+example : C02.DetailIs (evaluate (exEnvAt alice) exT).result.detail
+      { value := .str "b", index := some 1, reason := .targetMatch } ∧
+    (evaluate (exEnvAt alice) exT).result.isExperiment = false :=
+  evaluate_first_holding_list (exEnvAt alice) exT (by simp [exEnvAt, alice]) rfl exT_met_alice
+    [{ contextKind := "org", values := ["acme"], variation := 2 }]
+    { values := ["alice"], variation := 1 } [] (by decide)
+    (by intro q hq; rw [List.mem_singleton.1 hq]
+        exact missing_kind_not_holds (by simp [exEnvAt, alice, Ctx.byKind, Ctx.individuals, normKind]))
+    ⟨{ kind := "user", key := "alice" },
+      by simp [exEnvAt, alice, Ctx.byKind, Ctx.individuals, normKind, defaultKind],
+      by simp [Target.findKey, findKey]⟩
+    (by decide) (by decide)
+
+/-- A user list naming `alice` with variation index 7 (out of range): MALFORMED_FLAG. -/
+example : C02.DetailIs
+    (evaluate (exEnvAt alice)
+      { exT with contextTargets := [], targets := [{ values := ["alice"], variation := 7 }] }).result.detail
+    (Detail.forError .malformedFlag) :=
+  evaluate_target_bad_index (exEnvAt alice) _ 7 (by simp [exEnvAt, alice]) rfl exT_met_alice
+    (by decide) (by decide)
+
+end AuditExamples
+
 end LD.C03
 
 #print axioms LD.C03.findKey_table_transparent
@@ -381,3 +1070,29 @@ end LD.C03
 #print axioms LD.C03.anyTargetMatch_preprocess
 #print axioms LD.C03.over_rules
 #print axioms LD.C03.evaluate_listed_key
+#print axioms LD.C03.anyTargetMatch_consulted
+#print axioms LD.C03.targetMatch_eq_some_iff
+#print axioms LD.C03.anyTargetMatch_eq_some_iff
+#print axioms LD.C03.anyTargetMatch_eq_none_iff
+#print axioms LD.C03.consulted_no_keyless
+#print axioms LD.C03.byKind_single
+#print axioms LD.C03.byKind_multi
+#print axioms LD.C03.evaluate_of_anyTargetMatch
+#print axioms LD.C03.evaluate_target_bad_index
+#print axioms LD.C03.evaluate_first_holding_list
+#print axioms LD.C03.evaluate_target_match_iff
+#print axioms LD.C03.evaluate_no_list_holds
+#print axioms LD.C03.evaluate_target_match_holds
+#print axioms LD.C03.evaluate_listed_key_prereqs
+#print axioms LD.C03.evaluate_context_target
+#print axioms LD.C03.evaluate_keyless_user_defers
+#print axioms LD.C03.evaluate_targets_congr
+#print axioms LD.C03.evaluate_user_lists_not_consulted
+#print axioms LD.C03.anyTargetMatch_map_targets
+#print axioms LD.C03.anyTargetMatch_strip
+#print axioms LD.C03.preprocessFlag_tableOK
+#print axioms LD.C03.anyTargetMatch_preprocess_any
+#print axioms LD.C03.anyTargetMatch_preprocess_tableOK
+#print axioms LD.C03.anyTargetMatch_preprocess_twice
+#print axioms LD.C03.evaluate_fill_tables
+#print axioms LD.C03.evaluate_strip_tables
